@@ -71,6 +71,11 @@ func TestMain(m *testing.M) {
 	}
 	loadKnownFindings()
 	code := m.Run()
+	for _, a := range os.Args {
+		if strings.HasPrefix(a, "-test.fuzzworker") {
+			os.Exit(code) // fuzz workers do not own the statistics file
+		}
+	}
 	if p := os.Getenv("VERIF_STATS"); p != "" {
 		if err := cov.Flush(p); err != nil {
 			harnessError("writing stats: %v", err)
